@@ -323,8 +323,9 @@ def exec (c : Cfg) (deps : List Dep) : Nat → St → Nat → Sig → St
       | .stop s' =>
           -- a finished child may complete the gather of its parent
           match (getTask s' t).st, (getTask s' t).parent with
-          | .done _, some p =>
-              if (getTask s' p).st = .waitChildren && childrenDone s' p then setSt s' p .ready else s'
+          | .done ok, some p =>
+              -- `asyncio.gather`: the first exception of a child is delivered at once, otherwise when all are done
+              if (getTask s' p).st = .waitChildren && (!ok || childrenDone s' p) then setSt s' p .ready else s'
           | _, _ => s'
 
 inductive Act
